@@ -59,8 +59,11 @@ def extras(ctx, prop, outs, corpus=True):
         info["cosimulation"] = {"tasks_sampled": len([c for c in cs if not c.get("skipped")]), "tasks_skipped": len([c for c in cs if c.get("skipped")]),
                                 "samples": sum(c["samples"] for c in cs), "agree": sum(c["agree"] for c in cs),
                                 "not_comparable": sum(c["not_comparable"] for c in cs),
+                                "wrong_prediction_canaries": sum(c.get("canaries", 0) for c in cs),
+                                "wrong_prediction_canaries_caught": sum(c.get("canaries_caught", 0) for c in cs),
                                 "disagreements": [dict(d, task=c["task"]) for c in cs for d in c["disagree"]][:10],
-                                "skipped_why": sorted({c["skipped"] for c in cs if c.get("skipped")})[:6]}
+                                "skipped_why": sorted({c["skipped"] for c in cs if c.get("skipped")})[:6],
+                                "not_comparable_why": sorted({r for c in cs for r in c.get("reasons", [])})[:6]}
     if not corpus:
         return info
     must_fail, must_pass = [], []
